@@ -438,6 +438,229 @@ fn totality_i64_f32(rep: &mut Report) {
     rep.bounds.push(format!("ValOpsFactory::<i64,f32>: every operator x {} catalogue values (all ordered pairs), totality only: complete", cat.len()));
 }
 
+// ---------------------------------------------------------------------------------------------
+// other integer widths: integer operators against exact (BigInt) arithmetic
+
+use num::bigint::BigInt;
+use num::{One, Signed as _, ToPrimitive, Zero};
+
+#[derive(Debug, PartialEq)]
+enum IntSpec {
+    Exactly(BigInt),
+    MustBeError,
+    Unspecified,
+}
+fn fits(v: &BigInt, bits: u32) -> bool {
+    let lim = BigInt::one() << (bits - 1);
+    *v >= -lim.clone() && *v < lim
+}
+/// documented integer semantics for a signed two's complement type of `bits` bits
+fn int_ref(name: &str, a: &BigInt, b: Option<&BigInt>, bits: u32) -> IntSpec {
+    let res = |v: BigInt| if fits(&v, bits) { IntSpec::Exactly(v) } else { IntSpec::MustBeError };
+    match (name, b) {
+        ("-", None) => res(-a.clone()),
+        ("abs", None) => res(a.abs()),
+        ("fact", None) => {
+            if a.is_negative() {
+                return IntSpec::MustBeError;
+            }
+            let Some(n) = a.to_u32().filter(|n| *n <= 200) else { return IntSpec::MustBeError };
+            let mut r = BigInt::one();
+            for i in 2..=n {
+                r *= i;
+            }
+            res(r)
+        }
+        ("+", Some(b)) => res(a + b),
+        ("-", Some(b)) => res(a - b),
+        ("*", Some(b)) => res(a * b),
+        ("/", Some(b)) | ("%", Some(b)) => {
+            if b.is_zero() {
+                IntSpec::MustBeError
+            } else {
+                // truncating division / remainder with the sign of the dividend
+                let q = {
+                    let (qa, _) = (a.abs() / b.abs(), ());
+                    if a.is_negative() != b.is_negative() {
+                        -qa
+                    } else {
+                        qa
+                    }
+                };
+                if name == "/" {
+                    res(q)
+                } else if !fits(&q, bits) {
+                    // MIN % -1
+                    IntSpec::MustBeError
+                } else {
+                    res(a - b * q)
+                }
+            }
+        }
+        ("^", Some(b)) => {
+            if b.is_negative() {
+                return IntSpec::MustBeError;
+            }
+            if b.to_u32().is_none() {
+                // "out-of-range ... powers reported as an error": an exponent beyond 32 bits may be
+                // refused even where the mathematical result (0, 1, -1) would fit
+                return if a.is_zero() || a.is_one() || *a == -BigInt::one() { IntSpec::Unspecified } else { IntSpec::MustBeError };
+            }
+            if a.is_zero() || a.is_one() || *a == -BigInt::one() {
+                let odd = b.bit(0);
+                return res(if a.is_zero() { if b.is_zero() { BigInt::one() } else { BigInt::zero() } } else if a.is_one() || !odd { BigInt::one() } else { -BigInt::one() });
+            }
+            match b.to_u32().filter(|e| *e <= 130) {
+                Some(e) => res(num::pow(a.clone(), e as usize)),
+                None => IntSpec::MustBeError,
+            }
+        }
+        ("<<", Some(b)) | (">>", Some(b)) => {
+            match b.to_u32().filter(|s| *s < bits) {
+                None => IntSpec::MustBeError,
+                Some(s) if name == ">>" => IntSpec::Exactly(a >> s),
+                // bits shifted out of a left shift: not pinned down by the documentation
+                Some(s) => {
+                    let v = a << s;
+                    if fits(&v, bits) {
+                        IntSpec::Exactly(v)
+                    } else {
+                        IntSpec::Unspecified
+                    }
+                }
+            }
+        }
+        _ => IntSpec::Unspecified,
+    }
+}
+
+fn width_sweep<I>(which: Which, bits: u32, rep: &mut Report)
+where
+    I: exmex::DataType + num::PrimInt + num::Signed + std::str::FromStr + std::fmt::Display + Send + Sync + 'static,
+    <I as std::str::FromStr>::Err: std::fmt::Debug,
+{
+    let tname = format!("i{bits}");
+    let lim = BigInt::one() << (bits - 1);
+    let mut cat: Vec<BigInt> = Vec::new();
+    for k in [0i64, 1, 2, 3, 5, 7, 12, 13, 20, 21, 33, 34, 35, 63, 64, 65, 127, 128, (bits as i64) - 2, (bits as i64) - 1, bits as i64, bits as i64 + 1] {
+        cat.push(BigInt::from(k));
+        cat.push(BigInt::from(-k));
+    }
+    for d in 0..3 {
+        cat.push(lim.clone() - 1 - d);
+        cat.push(-lim.clone() + d);
+        cat.push((BigInt::one() << (bits / 2)) + d - 1);
+        cat.push(-(BigInt::one() << (bits / 2)) + d);
+    }
+    cat.retain(|v| fits(v, bits));
+    cat.sort();
+    cat.dedup();
+    let to_i = |v: &BigInt| -> I { v.to_string().parse::<I>().expect("catalogue value fits") };
+    let ops: Vec<Operator<'static, Val<I, f64>>> = ValOpsFactory::<I, f64>::make();
+    let mut acc = Acc::default();
+    let mut judge = |opname: &str, args: &[&BigInt], spec: IntSpec, got: Result<Val<I, f64>, String>, route: &str, acc: &mut Acc| {
+        acc.evaluations += 1;
+        acc.states += 1;
+        acc.transitions += 1;
+        let case = json!({"engine": "val-op", "route": format!("{route}<{tname},f64>"), "op": opname, "args": args.iter().map(|a| a.to_string()).collect::<Vec<_>>()});
+        match got {
+            Err(p) => {
+                if which == Which::C17 {
+                    acc.violate(Violation { signature: format!("panic:{tname}:{opname}:{}", panic_site(&p)), what: format!("[{route}] ValOpsFactory::<{tname},f64> operator {opname} panicked on {args:?}: {p}"), case });
+                }
+            }
+            Ok(v) => match spec {
+                IntSpec::Exactly(want) => {
+                    acc.nontrivial += 1;
+                    let ok = matches!(&v, Val::Int(i) if i.to_string() == want.to_string());
+                    if which == Which::C16 && !ok {
+                        acc.violate(Violation { signature: format!("wrong-result:{tname}:{opname}"), what: format!("[{route}] {tname}: {opname}{args:?} = {v:?}, exact integer arithmetic gives {want} (which fits)"), case });
+                    }
+                }
+                IntSpec::MustBeError => {
+                    acc.nontrivial += 1;
+                    if !matches!(v, Val::Error(_)) {
+                        acc.violate(Violation { signature: format!("missing-error:{tname}:{opname}"), what: format!("[{route}] {tname}: {opname}{args:?} = {v:?}, but the exact result does not fit / the operand is invalid: must be an error value"), case });
+                    }
+                }
+                IntSpec::Unspecified => {}
+            },
+        }
+    };
+    for o in &ops {
+        let name = o.repr();
+        if let Ok(f) = o.unary() {
+            if matches!(name, "-" | "abs" | "fact") {
+                for a in &cat {
+                    let spec = int_ref(name, a, None, bits);
+                    let x = Val::<I, f64>::Int(to_i(a));
+                    let got = guard(|| f(x.clone()));
+                    judge(name, &[a], spec, got, "function-pointer", &mut acc);
+                    // through a parsed expression and a variable
+                    let spec = int_ref(name, a, None, bits);
+                    let text = format!("{name}(x)");
+                    let got = guard(|| exmex::parse_val::<I, f64>(&text).and_then(|e| e.eval(&[x.clone()]))).and_then(|r| r.map_err(|e| format!("rejected: {}", e.msg())));
+                    match got {
+                        Err(m) if m.starts_with("rejected") => acc.violate(Violation { signature: format!("rejected:{tname}:{name}"), what: format!("{tname}: {text:?} at x = {a}: {m}"), case: json!({"engine": "val-op", "op": name}) }),
+                        g => judge(name, &[a], spec, g, "variable", &mut acc),
+                    }
+                }
+            }
+        }
+        if let Ok(b) = o.bin() {
+            if matches!(name, "+" | "-" | "*" | "/" | "%" | "^" | "<<" | ">>") {
+                for x in &cat {
+                    for y in &cat {
+                        let spec = int_ref(name, x, Some(y), bits);
+                        let (vx, vy) = (Val::<I, f64>::Int(to_i(x)), Val::<I, f64>::Int(to_i(y)));
+                        let got = guard(|| (b.apply)(vx.clone(), vy.clone()));
+                        judge(name, &[x, y], spec, got, "function-pointer", &mut acc);
+                    }
+                }
+            }
+        }
+    }
+    // float -> integer casts at the boundaries of the integer type (C17: never a panic)
+    if let Some(cast) = ops.iter().find(|o| o.repr() == "to_int").and_then(|o| o.unary().ok()) {
+        let two = 2f64;
+        let mut fl: Vec<f64> = vec![f64::NAN, f64::INFINITY, f64::NEG_INFINITY, 0.0, -0.0, 0.5, -0.5, 1e300, -1e300];
+        for e in [bits - 1, bits, bits - 2, 24, 31, 32, 53, 63, 64] {
+            let p = two.powi(e as i32);
+            for q in [p, -p, p + 1.0, -p - 1.0, p - 1.0, -p + 1.0, p * (1.0 + f64::EPSILON), -p * (1.0 + f64::EPSILON), p * (1.0 - f64::EPSILON / 2.0), -p * (1.0 - f64::EPSILON / 2.0)] {
+                fl.push(q);
+            }
+        }
+        for x in fl {
+            acc.evaluations += 1;
+            acc.states += 1;
+            acc.transitions += 1;
+            let t = x.trunc();
+            let exact_fits = x.is_finite() && t >= -(two.powi(bits as i32 - 1)) && t < two.powi(bits as i32 - 1);
+            match guard(|| cast(Val::<I, f64>::Float(x))) {
+                Err(p) => {
+                    if which == Which::C17 {
+                        acc.violate(Violation { signature: format!("panic:{tname}:to_int:{}", panic_site(&p)), what: format!("ValOpsFactory::<{tname},f64> to_int panicked on Float({x:e}): {p}"), case: json!({"engine": "val-op", "op": "to_int", "args": [format!("{x:e}")]}) });
+                    }
+                }
+                Ok(v) => {
+                    acc.nontrivial += 1;
+                    if !exact_fits && !matches!(v, Val::Error(_)) {
+                        acc.violate(Violation { signature: format!("missing-error:{tname}:to_int"), what: format!("{tname}: to_int(Float({x:e})) = {v:?}, but the value is not representable: must be an error value"), case: json!({"engine": "val-op", "op": "to_int", "args": [format!("{x:e}")]}) });
+                    }
+                    if exact_fits && which == Which::C16 {
+                        let want = format!("{}", t as i128);
+                        if !matches!(&v, Val::Int(i) if i.to_string() == want) {
+                            acc.violate(Violation { signature: format!("wrong-result:{tname}:to_int"), what: format!("{tname}: to_int(Float({x:e})) = {v:?} instead of Int({want})"), case: json!({"engine": "val-op", "op": "to_int", "args": [format!("{x:e}")]}) });
+                        }
+                    }
+                }
+            }
+        }
+    }
+    rep.absorb(acc);
+    rep.bounds.push(format!("ValOpsFactory::<{tname},f64>: integer operators - abs fact + - * / % ^ << >> x {} boundary integers (all ordered pairs) against exact integer arithmetic, to_int at the type's boundaries: complete", cat.len()));
+}
+
 pub fn run(which: Which, tier: Tier) -> i32 {
     let mut rep = Report::new(if which == Which::C16 { "C16" } else { "C17" }, tier);
     rep.rule = "every operator of ValOpsFactory::<i32,f64> x the full operand catalogue (all ordered pairs for binary operators), three routes: function pointer, variables at evaluation time, literal spellings folded at parse time; oracle: independent three-valued reference interpreter of the documented rules (exact / must-be-error / unspecified); C16 adds all trees of the listed sizes over the real value table; distinct = operator applications resp. trees; non-trivial = the reference specifies the outcome".into();
@@ -446,6 +669,10 @@ pub fn run(which: Which, tier: Tier) -> i32 {
         "catalogue literals for the tree part are chosen such that regrouping of really-AC operators is exact".into(),
     ];
     op_sweep(which, tier, &mut rep);
+    width_sweep::<i8>(which, 8, &mut rep);
+    width_sweep::<i16>(which, 16, &mut rep);
+    width_sweep::<i64>(which, 64, &mut rep);
+    width_sweep::<i128>(which, 128, &mut rep);
     if which == Which::C16 {
         tree_part(tier, &mut rep);
     } else {
